@@ -177,6 +177,9 @@ type Conn struct {
 	rd, wr *Pipe
 	rdl    int64 // read deadline (virtual ns), 0 = none
 	closed bool
+	// PeerAddr, when set, is what RemoteAddr reports (several connections to one
+	// listening address)
+	PeerAddr string
 	// counters
 	Reads, Writes, Timeouts int64
 }
@@ -502,8 +505,13 @@ type simAddr string
 func (a simAddr) Network() string { return "sim" }
 func (a simAddr) String() string  { return string(a) }
 
-func (c *Conn) LocalAddr() net.Addr  { return simAddr(c.Name) }
-func (c *Conn) RemoteAddr() net.Addr { return simAddr(c.Name + "-peer") }
+func (c *Conn) LocalAddr() net.Addr { return simAddr(c.Name) }
+func (c *Conn) RemoteAddr() net.Addr {
+	if c.PeerAddr != "" {
+		return simAddr(c.PeerAddr)
+	}
+	return simAddr(c.Name + "-peer")
+}
 
 //go:norace
 func (c *Conn) SetDeadline(t time.Time) error { return c.SetReadDeadline(t) }
